@@ -176,8 +176,10 @@ impl<K, V> HashMap<K, V> {
     where
         K: Eq,
     {
-        let at = self.find(&k);
-        Entry { map: self, key: k, at }
+        match self.find(&k) {
+            Some(at) => Entry::Occupied(OccupiedEntry { map: self, key: k, at }),
+            None => Entry::Vacant(VacantEntry { map: self, key: k }),
+        }
     }
     pub fn with_capacity(_n: usize) -> Self {
         Self::default()
@@ -272,24 +274,60 @@ impl<K: Eq, V> FromIterator<(K, V)> for HashMap<K, V> {
     }
 }
 
-pub struct Entry<'a, K, V> {
+/// `std::collections::hash_map::Entry`, with the variants code may match on.
+pub enum Entry<'a, K, V> {
+    Occupied(OccupiedEntry<'a, K, V>),
+    Vacant(VacantEntry<'a, K, V>),
+}
+pub struct OccupiedEntry<'a, K, V> {
     map: &'a mut HashMap<K, V>,
     key: K,
-    at: Option<usize>,
+    at: usize,
+}
+pub struct VacantEntry<'a, K, V> {
+    map: &'a mut HashMap<K, V>,
+    key: K,
+}
+impl<'a, K: Eq, V> OccupiedEntry<'a, K, V> {
+    pub fn key(&self) -> &K {
+        &self.key
+    }
+    pub fn get(&self) -> &V {
+        self.map.val(self.at)
+    }
+    pub fn get_mut(&mut self) -> &mut V {
+        unsafe { self.map.vals[self.at].assume_init_mut() }
+    }
+    pub fn into_mut(self) -> &'a mut V {
+        std::mem::forget(self.key);
+        unsafe { self.map.vals[self.at].assume_init_mut() }
+    }
+    pub fn insert(&mut self, v: V) -> V {
+        let old = unsafe { self.map.vals[self.at].assume_init_read() };
+        self.map.vals[self.at].write(v);
+        old
+    }
+    pub fn remove(self) -> V {
+        std::mem::forget(self.key);
+        self.map.used[self.at] = false;
+        unsafe { self.map.vals[self.at].assume_init_read() }
+    }
+}
+impl<'a, K: Eq, V> VacantEntry<'a, K, V> {
+    pub fn key(&self) -> &K {
+        &self.key
+    }
+    pub fn insert(self, v: V) -> &'a mut V {
+        self.map.insert(self.key, v);
+        self.map.last_inserted()
+    }
 }
 impl<'a, K: Eq, V> Entry<'a, K, V> {
     pub fn or_insert_with<F: FnOnce() -> V>(self, f: F) -> &'a mut V {
-        let i = match self.at {
-            Some(i) => {
-                std::mem::forget(self.key);
-                i
-            }
-            None => {
-                self.map.insert(self.key, f());
-                return self.map.last_inserted();
-            }
-        };
-        unsafe { self.map.vals[i].assume_init_mut() }
+        match self {
+            Entry::Occupied(o) => o.into_mut(),
+            Entry::Vacant(v) => v.insert(f()),
+        }
     }
     pub fn or_insert(self, v: V) -> &'a mut V {
         self.or_insert_with(|| v)
@@ -300,11 +338,17 @@ impl<'a, K: Eq, V> Entry<'a, K, V> {
     {
         self.or_insert_with(V::default)
     }
-    pub fn and_modify<F: FnOnce(&mut V)>(self, f: F) -> Self {
-        if let Some(i) = self.at {
-            f(unsafe { self.map.vals[i].assume_init_mut() });
+    pub fn and_modify<F: FnOnce(&mut V)>(mut self, f: F) -> Self {
+        if let Entry::Occupied(o) = &mut self {
+            f(o.get_mut());
         }
         self
+    }
+    pub fn key(&self) -> &K {
+        match self {
+            Entry::Occupied(o) => o.key(),
+            Entry::Vacant(v) => v.key(),
+        }
     }
 }
 
